@@ -1269,7 +1269,7 @@ func (r packRunner[I, O]) call(par int, x any, chunks []any) POut {
 
 func packT[I, O any](sp *NSpec, rec *recorder) runner {
 	fi, fs, fc, ft := natives[I, O](sp, rec)
-	i, s, c, t := compose.VerifPack(fi, fs, fc, ft)
+	i, s, c, t := c04Pack(fi, fs, fc, ft)
 	return packRunner[I, O]{i, s, c, t, rec}
 }
 
